@@ -19,6 +19,13 @@ mod common;
 pub mod config;
 mod workers;
 
+/// Verification hook: access to otherwise private storage and request parsing code
+#[cfg(aquatic_verif)]
+pub mod verif_api {
+    pub use crate::workers::socket::verif_request::*;
+    pub use crate::workers::swarm::verif_storage::*;
+}
+
 pub const APP_NAME: &str = "aquatic_http: HTTP BitTorrent tracker";
 pub const APP_VERSION: &str = env!("CARGO_PKG_VERSION");
 
@@ -144,6 +151,15 @@ pub fn run(config: Config) -> ::anyhow::Result<()> {
             .name("signals".into())
             .spawn(move || {
                 for signal in &mut signals {
+                    #[cfg(aquatic_verif)]
+                    match aquatic_common::verif::probe("http.signals.loop") {
+                        aquatic_common::verif::ACTION_RETURN_OK => return Ok(()),
+                        aquatic_common::verif::ACTION_RETURN_ERR => {
+                            return Err(anyhow::anyhow!("verif: injected signals worker error"))
+                        }
+                        _ => (),
+                    }
+
                     match signal {
                         SIGUSR1 => {
                             let _ = update_access_list(&config.access_list, &state.access_list);
